@@ -82,6 +82,28 @@ func (t *Task) run(fn *ssa.Function, args []Val, freevars []Val, st *State, dept
 			a.params[fv.Name()] = freevars[i]
 		}
 	}
+	if con == nil {
+		// inlined function with loop contracts of its own: its entry-state names (oldlet / ext) are needed by the invariants
+		if own := a.conForLoops(); own != nil {
+			hasLoop := false
+			for _, c := range own.Clauses {
+				if c.Kind == "loopinv" {
+					hasLoop = true
+				}
+			}
+			if hasLoop {
+				env := a.exprEnv(st, nil)
+				env.old = a.entry
+				for _, c := range own.Clauses {
+					if c.Kind == "oldlet" || c.Kind == "ext" {
+						v := env.evalSrc(c.Expr, c.Src)
+						a.lets[c.Name] = v
+						env.vars[c.Name] = v
+					}
+				}
+			}
+		}
+	}
 	out, res := a.execBody(st)
 	return out, res, a
 }
